@@ -17,6 +17,8 @@ def run(tier, replay=None):
     pool = S.good_pool(binary, cand)
     n_keys, per_key, max_len = (50, 4, 12) if tier == 'quick' else (4000, 2, 40)
     rows, seqs = [], {}
+    mism = {}
+    pool_names = {k: sorted({(v['object'], v['opcode']) for v in vs}) for k, vs in pool.items()}
     if replay:
         rp = json.load(open(replay))
     for k in range(n_keys):
@@ -30,6 +32,18 @@ def run(tier, replay=None):
                 rid = f"{s['id']}.{reader}"
                 seqs[rid] = (s, reader)
                 rows.append([rid, 'W.stream', s['version'], s['dir'], reader, 'enc:' + key, names if reader == 'expect' else '-', stream])
+            # the same history over a transport that delivers short reads, and typed readers asked for a different message
+            # (Opcode error; the rejected frame is consumed and both cipher states stay in step)
+            sr = rng.choice(('enum', 'expect'))
+            rid = f"{s['id']}.{sr}-short"
+            seqs[rid] = (s, sr + '-short')
+            rows.append([rid, 'W.stream', s['version'], s['dir'], sr, 'enc:' + key + ';chunk=' + S.chunk_pattern(rng), names if sr == 'expect' else '-', stream])
+            mnames, mis = S.mismatch_names(s, pool_names[(s['version'], s['dir'])], rng)
+            if mis:
+                rid = f"{s['id']}.expect-mismatch"
+                seqs[rid] = (s, 'expect-mismatch')
+                mism[rid] = mis
+                rows.append([rid, 'W.stream', s['version'], s['dir'], 'expect', 'enc:' + key, mnames, stream])
     # deterministic boundary sweep: [small, WARDEN_DATA(L), small] for every body length around the Wrath 2/3-byte header
     # switch and the top of the 2-byte form, one key, both readers
     key = bytes(rng.getrandbits(8) for _ in range(40)).hex()
@@ -109,7 +123,7 @@ def run(tier, replay=None):
                 chk.count('skipped:stream-too-large-to-log-with-compressed-frames')
                 continue
             if why is None:
-                why = S.judge_stream(s, e.get('msgs') or [], frame_lens=flens)
+                why = S.judge_stream(s, e.get('msgs') or [], frame_lens=flens, mismatched=mism.get(rid, ()))
         chk.count(f'{reader}:' + ('ok' if why is None else 'bad'))
         shape = (len(s['frames']), sum(1 for v in s['frames'] if len(v['hex']) // 2 > 0x7FFF), sum(1 for v in s['frames'] if len(v['hex']) // 2 > 0xFFFF), sum(1 for v in s['frames'] if v.get('payloads')))
         if rid.startswith('big.'):
